@@ -61,11 +61,15 @@ MStep ==
                        \/ how' = "exc" /\ n # 0 /\ ND(n).kind = "raise" /\ n \notin ErrorS(fn)
          \* an exception arriving from a callee, or an implicit one, makes the next transfer unmodelled
          implicitNow == how' = "exc" /\ (n = 0 \/ ND(n).kind # "raise") /\ ~ended
+         \* the jump (return / break / continue) that is waiting in the innermost finally block, "" if none: names the
+         \* cause of a missing edge when the last executed node is a statement of an inner finally block
+         pidx == {i \in 1..Len(ctrl) : ctrl[i].k = "finally" /\ ctrl[i].comp # NoComp}
+         pend == IF pidx = {} THEN "" ELSE ctrl[CHOOSE i \in pidx : \A j \in pidx : i >= j].comp[1]
          upd  == [lastStk EXCEPT ![nc] = lastNow]
          rs1  == [resync EXCEPT ![nc] = IF judged THEN implicitNow ELSE (@ \/ implicitNow)]
      IN
      /\ bad' = IF bad # "" THEN bad
-               ELSE IF edgeBad THEN ToString(<<"edge", fn, lastStk[nc], n>>)
+               ELSE IF edgeBad THEN ToString(<<"edge", fn, lastStk[nc], n, pend>>)
                ELSE IF exitBad THEN ToString(<<"exit", fn, lastNow, how'>>)
                ELSE ""
      /\ lastStk' = IF nc2 > nc THEN Append(upd, 0) ELSE SubSeq(upd, 1, nc2)
